@@ -317,6 +317,19 @@ def closeness (n : Nat) (edge : Nat → Nat → Bool) : Option (List α) :=
   ((List.range n).mapM fun s =>
     SkNet.Path.distancesFromMask n edge (tab n fun v => v == s)).map (closenessOf n)
 
+/-- `is_weakly_connected(adjacency)` : every node is reached from node 0 when the edges are read in both directions -/
+def weaklyConnected (n : Nat) (edge : Nat → Nat → Bool) : Bool :=
+  match SkNet.Path.distancesFromMask n (fun i j => edge i j || edge j i) (tab n fun v => v == 0) with
+  | some d => d.all fun x => decide (0 ≤ x)
+  | none => false
+
+/-- `Closeness(method='exact').fit(adjacency)` on a square matrix with `nnz` stored entries:
+    `check_format` refuses an empty matrix, `check_connected` a graph that is not weakly connected -/
+def closenessFit (n nnz : Nat) (edge : Nat → Nat → Bool) : Except PyErr (Option (List α)) :=
+  if nnz = 0 then .error .valueError
+  else if !weaklyConnected n edge then .error .valueError
+  else .ok (closeness n edge)
+
 /-! ### Betweenness (`ranking/betweenness.pyx`), Brandes -/
 
 structure BState where
@@ -365,11 +378,22 @@ def brandesSource (n : Nat) (nbr : Nat → List Nat) (scores : List α) (source 
   | none => none
   | some st => some (brandesBack source st.sigma st.preds st.seen (tab n fun _ => 0) scores).2
 
-/-- `Betweenness().fit(adjacency).scores_` after the checks: `1/2 *` the accumulated dependencies;
-    `nbr i` = the stored column indices of row `i` in storage order -/
-def betweenness (n : Nat) (nbr : Nat → List Nat) : Option (List α) :=
+/-- `Betweenness().fit(adjacency).scores_` after the checks: the accumulated dependencies, times `1/2` when the
+    adjacency is symmetric (`is_symmetric(adjacency)`); `nbr i` = the stored column indices of row `i` in storage order -/
+def betweenness (n : Nat) (nbr : Nat → List Nat) (symmetric : Bool) : Option (List α) :=
   ((List.range n).foldlM (fun sc s => brandesSource n nbr sc s) (tab n fun _ => (0 : α))).map fun sc =>
-    tab n fun i => (1 / (1 + 1)) * sc.getD i 0
+    if symmetric then tab n fun i => (1 / (1 + 1)) * sc.getD i 0 else sc
+
+/-- `Betweenness().fit(adjacency)` with the checks of `fit` -/
+def betweennessFit (n nnz : Nat) (edge : Nat → Nat → Bool) (nbr : Nat → List Nat) (symmetric : Bool) :
+    Except PyErr (Option (List α)) :=
+  if nnz = 0 then .error .valueError
+  else if !weaklyConnected n edge then .error .valueError
+  else .ok (betweenness n nbr symmetric)
+
+/-- `is_symmetric(adjacency)` : `(A - Aᵀ).nnz == 0` on the matrix of entries -/
+def isSymmetric [BEq α] (n : Nat) (w : Nat → Nat → α) : Bool :=
+  (List.range n).all fun i => (List.range n).all fun j => w i j == w j i
 
 /-! ### HITS post-processing (`ranking/hits.py`) -/
 
